@@ -5,6 +5,7 @@ theorems say what the lexer model does with every constant of that grammar.
 -/
 import NormModel.Proofs.LiteralsLex
 import NormModel.Proofs.CharString
+import NormModel.Proofs.Floats
 namespace Norm.C11
 open Norm Spec
 
@@ -91,6 +92,36 @@ theorem int_valid (u : Uni) (k : IntConst) (hk : k.WF) (rest : List Char) (hb : 
     ?_, rfl, rfl, rfl, rfl, p2, p3⟩
   unfold trySubLexers
   rw [hpf, hpi]
+
+/-- every floating suffix of the standard is in the table regenerated from the source -/
+theorem float_suffix_table_complete : ∀ s ∈ Spec.floatSuffixes, Generated.floatSuffixes.contains s = true := by
+  decide
+
+/-- **A well-formed decimal floating constant** — `D+ Exp`, `D* . D+ Exp?` or `D+ . Exp?` with digit
+strings of any length, either exponent letter, either sign or none, every suffix of the standard —
+**becomes one CONSTANT token spanning exactly the constant, with no lexical diagnostic**, at any
+position, whatever follows (within `boundaryOK`). -/
+theorem float_valid (u : Uni) (k : DecFloat) (hk : k.WF) (rest : List Char) (hb : boundaryOK rest)
+    (s : LexSt) (hr : s.rest = k.render ++ rest) :
+    ∃ s' t, trySubLexers u s = .ok (some (s', t)) ∧ t.type = "CONSTANT" ∧
+      t.value = some (String.ofList k.render) ∧ t.line = s.line ∧ t.col = s.col ∧
+      s'.rest = rest ∧ s'.diags = s.diags :=
+  Norm.float_valid u k hk rest hb s hr
+
+/-- Non-vacuity: `1.5e-3f`, `.25`, `10.`, `6E23L`. -/
+example : DecFloat.WF (.frac "1".toList "5".toList (some ⟨'e', some '-', "3".toList⟩) "f") ∧
+    DecFloat.WF (.frac [] "25".toList none "") ∧ DecFloat.WF (.frac "10".toList [] none "") ∧
+    DecFloat.WF (.exp "6".toList ⟨'E', none, "23".toList⟩ "L") ∧
+    DecFloat.render (.frac "1".toList "5".toList (some ⟨'e', some '-', "3".toList⟩) "f") = "1.5e-3f".toList := by
+  refine ⟨?_, ?_, ?_, ?_, by decide⟩
+  · refine ⟨Or.inl (by decide), by decide, by decide, ?_, by decide⟩
+    intro y hy
+    simp only [Option.some.injEq] at hy
+    subst hy
+    exact ⟨Or.inl rfl, (by intro s hs; simp at hs; subst hs; exact Or.inr rfl), by decide, by decide⟩
+  · exact ⟨Or.inr (by decide), by decide, by decide, (by intro y hy; cases hy), by decide⟩
+  · exact ⟨Or.inl (by decide), by decide, by decide, (by intro y hy; cases hy), by decide⟩
+  · exact ⟨by decide, by decide, ⟨Or.inr rfl, (by intro s hs; cases hs), by decide, by decide⟩, by decide⟩
 
 /-- **A character constant `pre ' c '`** (pre ∈ {"", L, u, U, u8}; c any character other than the
 quote, the backslash, newline and tab) **becomes one CHAR_CONST token spanning exactly the
